@@ -42,15 +42,18 @@ class C05(Check):
         "generic forms and malformed lines (model parse = NewRR). A case is non-trivial when its arguments are not "
         "empty; distinct by hash of (function, arguments, output).")
     partial = [
-        "theorems proved: escaping layer (all octet strings), lexer on printed items, decimal and TTL round trip, "
-        "type/class code points (all 65536, three mnemonics refuted), character-string lists end to end",
-        "irregular printers are not modelled; they are covered by the Go oracles only: AAAA, APL, AMTRELAY, CAA, CERT, "
-        "EUI48, EUI64, GPOS, HINFO, HIP, HTTPS, IPSECKEY, ISDN, L64, LOC, NAPTR, NID, NSEC3, NSEC3PARAM, RRSIG, SIG, "
-        "SMIMEA, SVCB, UINFO, X25",
+        "irregular printers are not modelled; they are covered by the Go oracles only (modelled: false): AAAA, APL, "
+        "AMTRELAY, CAA, CERT, EUI48, EUI64, GPOS, HINFO, HIP, HTTPS, IPSECKEY, ISDN, L64, LOC, NAPTR, NID, NSEC3, "
+        "NSEC3PARAM, RRSIG, SIG, SMIMEA, SVCB, UINFO, X25",
         "RRSIG/SIG time rendering depends on the wall clock (TimeToString); exercised by the oracle at the current date only",
+        "octet-identical RDATA is proved as equality of what each printed field denotes (unescape, name_units, unhex, "
+        "numbers, type codes); the wire codecs themselves are C01's; the harness checks real PackRR octets",
+        "c05_record_roundtrip assumes toAbsoluteName accepts the printed names (IsDomainName); that valid wire names "
+        "satisfy it is C03's theorem",
+        "sprintName on non-canonical spellings put into a struct by a caller is covered by correspondence and the "
+        "second-generation oracle, not by a theorem (the theorem covers every name UnpackDomainName can produce)",
         "the general zone lexer (comments, directives, multi-record input) belongs to C06/C07; here one record line",
-        "octet-identical RDATA is proved at the level of what each printed field denotes (unescape, name_units, unhex), "
-        "the wire codecs themselves are C01's",
+        "Type.String of codes 0, 255, 65535 is refuted on the model (c05_type_string_refuted), not proved",
     ]
     trusted = [
         "the model's strings.ToUpper is ASCII only (Go's is Unicode aware; differs only for non-ASCII letters in a type/class token)",
